@@ -23,6 +23,7 @@ def _variant_kwargs(geo, variant):
         elif part == 'qtree': kw['qtree'] = geo.column_quadtree()
         elif part == 'brect': kw['bounds'] = geo.bounds
         elif part == 'bpoly': kw['bounds'] = geo.boundary_polygon
+        elif part == 'bnodes': kw['bounds'] = [n.pos for n in geo.boundary_nodes]
         elif part.startswith('guess'):
             guess = int(part[5:]) % len(cols)
             kw['guess'] = cols[guess]
@@ -43,6 +44,8 @@ def replay(d):
     import mulgrids as mg
     spec = G.make_spec(mg, d['geo'], d.get('ncols'))
     geo = G.build(mg, spec)
+    if d['fn'] == 'track':
+        return _replay_track(d, mg, geo, spec)
     fx, fy = num(d['point']['x']), num(d['point']['y'])
     x, y = float(fx), float(fy)
     # exact oracle at the float point actually passed to the code
@@ -62,6 +65,13 @@ def replay(d):
         expname = None if exp is None else spec['columns'][exp][0]
         gotname = None if r is None else r.name
         msg = '%s %s at (%r, %r): real code returns %r, exact oracle says %r' % (d['geo'], d['variant'], x, y, gotname, expname)
+        if d['fn'] == 'compare':
+            # the claim that failed: this aid and the unaided search return the same column
+            r0 = geo.column_containing_point(np.array([x, y]))
+            name0 = None if r0 is None else r0.name
+            if name0 is not None and allowed is not None and geo.columnlist.index(r0) not in allowed: name0 = None
+            msg += '; unaided search returns %r' % (None if r0 is None else r0.name)
+            return gotname != name0 or gotname != expname, msg
         return gotname != expname, msg
     if d['fn'] == 'block':
         z = float(num(d['point']['z']))
@@ -89,4 +99,43 @@ def replay(d):
 
 
 def _replay_track(d, mg, geo, spec):
-    return False, 'track replay not implemented'
+    """axis-parallel line on a tiny rectangular grid: exact interval oracle."""
+    import numpy as np
+    o, s0, e0 = float(num(d['line']['o'])), float(num(d['line']['s'])), float(num(d['line']['e']))
+    ax = 0 if d['orient'] == 'h' else 1
+    ox = 1 - ax
+    p0, p1 = [0.0, 0.0], [0.0, 0.0]
+    p0[ax], p0[ox], p1[ax], p1[ox] = s0, o, e0, o
+    try:
+        track = geo.column_track([np.array(p0), np.array(p1)])
+    except Exception as ex:
+        return True, 'column_track raised %s: %s' % (type(ex).__name__, ex)
+    O, S, E = Fraction(o), Fraction(s0), Fraction(e0)
+    lo_, hi_ = min(S, E), max(S, E)
+    bad = []
+    names = [c[0] for c in spec['columns']]
+    lens, rects = {}, {}
+    for name in names:
+        P = [(Fraction(x), Fraction(y)) for x, y in G.polygon_of(spec, name)]
+        lo = (min(p[0] for p in P), min(p[1] for p in P)); hi = (max(p[0] for p in P), max(p[1] for p in P))
+        if O in (lo[ox], hi[ox]): return False, 'line runs along a column edge: outside the quantifier'
+        ov = min(hi[ax], hi_) - max(lo[ax], lo_)
+        lens[name] = ov if (lo[ox] < O < hi[ox] and ov > 0) else Fraction(0)
+        rects[name] = (lo, hi, max(hi[0] - lo[0], hi[1] - lo[1]) * Fraction(1e-3))
+    listed = [t[0].name for t in track]
+    eps = Fraction(1, 10 ** 9)
+    for (col, pin, pout) in track:
+        lo, hi, tol = rects[col.name]
+        ent = max(lo[ax], S) if S <= E else min(hi[ax], S)
+        ext = min(hi[ax], E) if S <= E else max(lo[ax], E)
+        if lens[col.name] <= 0: bad.append('%r listed but not crossed' % col.name)
+        elif abs(Fraction(float(pin[ax])) - ent) > eps or abs(Fraction(float(pout[ax])) - ext) > eps or \
+                abs(Fraction(float(pin[ox])) - O) > eps or abs(Fraction(float(pout[ox])) - O) > eps:
+            bad.append('%r entry/exit %r %r, expected %s %s' % (col.name, list(pin), list(pout), float(ent), float(ext)))
+    for name in names:
+        if name not in listed and lens[name] > rects[name][2] * (1 + eps): bad.append('%r crossed over %s but missing' % (name, float(lens[name])))
+    dist = [abs(Fraction(float(t[1][ax])) - S) for t in track]
+    if any(dist[i] > dist[i + 1] + eps for i in range(len(dist) - 1)): bad.append('not ordered along the line')
+    if len(set(listed)) != len(listed): bad.append('column listed twice')
+    msg = '%s %s line %r -> %r: track %r' % (d['geo'], d['orient'], p0, p1, [(t[0].name, list(map(float, t[1])), list(map(float, t[2]))) for t in track])
+    return bool(bad), msg + ('; ' + '; '.join(bad[:4]) if bad else '; oracle agrees')
